@@ -505,8 +505,10 @@ def analyse(script, rc, out, err):
                 nd, fx, fy, lx, ly = map(int, m.groups())
                 if during_newfb(evs, t[2].split("=")[1]): fin = "newfb-latecomer"
                 elif has_soft and lx < 5 and ly < 4: fin = "softcursor-pollutes-others"
-                elif not (guards & 4):
-                    # inside the destination of a copy whose memmove ran while an output thread was busy
+                else:
+                    # inside the destination of a copy whose memmove ran while an output thread was busy.
+                    # (The harness guard bit 4 only narrows that window — seed 6 of the quick tier still
+                    # hit it in a guarded script — so the tag does not depend on the guard.)
                     for o in ops:
                         if o[0] == "copy":
                             x, y, ww, hh = map(int, o[1:5])
